@@ -172,7 +172,8 @@ impl<F: FixedChannelRegion> RegionHandler for FixedChannelPlan<F> {
     }
 
     fn get_datarate(&self, dr: u8) -> Option<&Datarate> {
-        F::datarates()[dr as usize].as_ref()
+        // `dr` may come straight from a received frame (0..=15); the table has 15 entries
+        F::datarates().get(dr as usize).and_then(|d| d.as_ref())
     }
 
     fn select_tx_channel<RNG: RngCore>(
